@@ -288,12 +288,17 @@ func SubscribeWithReplay[T any](
 	}
 
 	// Load last offset for this subscription
-	lastOffset, _ := subStore.LoadOffset(ctx, subscriptionID)
+	// A failed load must not be mistaken for "no saved offset": replaying
+	// from the beginning would deliver every acknowledged event again
+	lastOffset, err := subStore.LoadOffset(ctx, subscriptionID)
+	if err != nil {
+		return fmt.Errorf("load subscription offset: %w", err)
+	}
 
 	// Replay missed events
 	// Use the same type naming as EventType(), which honours TypeNamer
 	typeName := eventTypeName[T]()
-	err := bus.Replay(ctx, lastOffset, func(stored *StoredEvent) error {
+	err = bus.Replay(ctx, lastOffset, func(stored *StoredEvent) error {
 		// Apply upcasts if available
 		eventData, eventTypeName := stored.Data, stored.Type
 		if bus.upcastRegistry != nil {
